@@ -413,6 +413,11 @@ def run(ses, rep):
 
 def replay(path):
     sc, v, rec = battery()
+    if not v:
+        from .. import cfgorigin
+        fails = cfgorigin.battery(common.native_build("default"))
+        if fails:
+            v = f"scenario {fails[0][0]}: {fails[0][1]}"
     print(v or "configuration battery: every file got the documented configuration")
     if v:
         print(f"VIOLATION property=C15 replay={path}")
